@@ -201,7 +201,7 @@ def do_event(main, kind, payload):
         main.pipeline_dropdown.click(Event(payload))
 
 
-def step(ctx, main, ev, log):
+def step(ctx, main, ev, log, edge=False):
     """execute one event with its oracle; returns False if a violation was recorded that ends the session"""
     label, kind, payload = ev
     s = main.slurry
@@ -216,7 +216,7 @@ def step(ctx, main, ev, log):
             acc = lo <= v <= hi
         except ValueError:
             v, acc = None, False
-        if acc and not in_envelope(w, v, s):
+        if acc and not edge and not in_envelope(w, v, s):
             return True          # would leave the envelope: outside the property's premise, skip the event
         if txt == pre_txt[w]:
             return True          # no change event
@@ -320,12 +320,15 @@ def monitor(ctx, extended=False):
     for raw in ([('D15_input', '0.170'), ('D50_input', '0.200'), ('D50_input', '0.190')],
                 [('D50_input', '2.700'), ('D50_input', '7.300'), ('D50_input', '19.800'), ('D50_input', '53.800'), ('D50_input', '124.000')],
                 [('D15_input', '0.170'), ('D50_input', '0.260'), ('click', 'D50_down_button'), ('click', 'D50_down_button')],
-                [('Cv_input', 'nan'), ('D50_input', 'nan'), ('rhos_input', 'nan'), ('Dp_input', 'nan')]):
+                [('Cv_input', 'nan'), ('D50_input', 'nan'), ('rhos_input', 'nan'), ('Dp_input', 'nan')],
+                # the edges of the range the Cv box documents (0.01 .. 0.5), reached by entry and then pushed with the buttons
+                [('Cv_input', '0.012'), ('click', 'Cv_down_button'), ('click', 'Cv_down_button'), ('click', 'Cv_up_button')],
+                [('Cv_input', '0.498'), ('click', 'Cv_up_button'), ('click', 'Cv_up_button'), ('click', 'Cv_down_button')]):
         main = new_session()
         log = []
         for w, txt in raw:
             ev_ = (txt, 'click', txt) if w == 'click' else (f"{w.split('_')[0]}={txt!r}", 'text', (w, txt))
-            if not step(ctx, main, ev_, log):
+            if not step(ctx, main, ev_, log, edge=True):
                 break
             k += 1
     for sc in scripts:
